@@ -5,7 +5,7 @@ use std::sync::Arc;
 use std::{fs, io};
 
 use crate::FileId;
-use dashmap::DashSet;
+use dashmap::DashMap;
 use ignore::gitignore::{Gitignore, GitignoreBuilder};
 use rayon::Scope;
 
@@ -152,7 +152,8 @@ pub struct Walk<'a> {
 /// Private shared state scoped to a single `run` invocation.
 struct WalkState<F> {
     pub consumer: F,
-    pub visited: DashSet<u128>,
+    /// visited paths with the lowest nesting level they were visited at
+    pub visited: DashMap<u128, usize>,
 }
 
 impl<'a> Walk<'a> {
@@ -186,7 +187,7 @@ impl<'a> Walk<'a> {
     {
         let state = WalkState {
             consumer,
-            visited: DashSet::new(),
+            visited: DashMap::new(),
         };
         rayon::scope(|scope| {
             let ignore = if self.no_ignore {
@@ -286,8 +287,21 @@ impl<'a> Walk<'a> {
 
         // Skip already visited paths. We're checking only when follow_links is true,
         // because inserting into a shared hash set is costly.
-        if self.follow_links && !state.visited.insert(entry.path.hash128()) {
-            return;
+        // A directory or a link reached again through another route is visited again only if
+        // it is reached at a shallower level, because then the depth limit cuts its subtree later.
+        if self.follow_links {
+            use dashmap::mapref::entry::Entry as MapEntry;
+            match state.visited.entry(entry.path.hash128()) {
+                MapEntry::Occupied(mut e) => {
+                    if entry.tpe == EntryType::File || *e.get() <= level {
+                        return;
+                    }
+                    e.insert(level);
+                }
+                MapEntry::Vacant(e) => {
+                    e.insert(level);
+                }
+            }
         }
 
         // Skip entries ignored by .gitignore
